@@ -1,2 +1,288 @@
-//! Harnesses for property C27 (see /verif/properties.jsonl).
+//! Harnesses for property C27 (cookie key persistence: load validation, crash prefixes, restore).
+//! Code under test: `KeySetProvider::{load, store}` (+ `KeySet::{encode_cookie, decode_cookie}` on
+//! what was loaded). File format (keyset.rs): 8 bytes seconds since the Unix epoch, 4 bytes
+//! id_offset, 4 bytes primary, 4 bytes number of keys (all big endian), then 64 bytes per key.
+use crate::common::*;
 use crate::stubs;
+use std::time::{Duration, SystemTime};
+
+const HDR: usize = 20;
+const KEY: usize = 64;
+/// Largest file explored: header + 2 keys.
+const FILE_MAX: usize = HDR + 2 * KEY;
+
+fn be32(b: &[u8], at: usize) -> u32 {
+    u32::from_be_bytes([b[at], b[at + 1], b[at + 2], b[at + 3]])
+}
+fn be64(b: &[u8], at: usize) -> u64 {
+    u64::from_be_bytes([b[at], b[at + 1], b[at + 2], b[at + 3], b[at + 4], b[at + 5], b[at + 6], b[at + 7]])
+}
+
+/// Checks shared by the load harnesses: what an accepted file must look like and what was loaded.
+/// Returns the loaded key set for further use.
+fn check_loaded(file: &[u8; FILE_MAX], n: usize, history: usize, p: &KeySetProvider, time: SystemTime) {
+    let secs = be64(file, 0);
+    let off = be32(file, 8);
+    let primary = be32(file, 12);
+    let len = be32(file, 16) as usize;
+    let ks = p.get();
+    // an accepted file is complete: every declared key was present
+    assert!(len <= 2 && n >= HDR + KEY * len, "accepted file contains all declared keys");
+    assert!(kh::keyset_len(&ks) == len, "loaded as many keys as declared");
+    assert!(kh::keyset_id_offset(&ks) == off, "id offset restored");
+    assert!(kh::keyset_primary(&ks) == primary, "primary restored");
+    assert!(kh::provider_history(p) == history, "configured history kept");
+    assert!(time == SystemTime::UNIX_EPOCH + Duration::from_secs(secs), "creation time restored");
+    let mut k = 0;
+    while k < len {
+        assert!(eq64(kh::keyset_key_bytes(&ks, k), &file[HDR + KEY * k..]), "key bytes restored");
+        k += 1;
+    }
+    // the safety condition of the property: the loaded set can be used
+    assert!((primary as usize) < kh::keyset_len(&ks), "primary indexes an existing key (encode_cookie indexes keys[primary])");
+    std::mem::forget(ks);
+}
+
+/// Any byte string of up to 148 bytes (symbolic length) as key file. If it is accepted, the result
+/// is exactly what the file says and is usable. Two regions are excluded here and shown to fail in
+/// the `_kf_` harnesses below: `primary == number of keys`, and a time stamp >= 2^63 seconds.
+crate::ks_harness_spec! {
+    #[kani::unwind(4)]
+    fn c27_load() {
+        let file: [u8; FILE_MAX] = kani::any();
+        let n: usize = kani::any();
+        let history: usize = kani::any();
+        kani::assume(n <= FILE_MAX);
+        let secs = be64(&file, 0);
+        let primary = be32(&file, 12);
+        let len = be32(&file, 16);
+        kani::assume(secs <= i64::MAX as u64); // known finding: load panics on larger time stamps
+        kani::assume(primary != len); // known finding: accepted, later index out of bounds
+        let mut rd: &[u8] = &file[..n];
+        match KeySetProvider::load(&mut rd, history) {
+            Ok((p, time)) => {
+                check_loaded(&file, n, history, &p, time);
+                kani::cover!(len == 1, "file with one key accepted");
+                kani::cover!(len == 2 && primary == 0, "file with two keys accepted, older key primary");
+                kani::cover!(n > HDR + KEY && len == 1, "trailing bytes after the declared keys are ignored");
+                std::mem::forget(p);
+            }
+            Err(e) => {
+                // rejecting is always safe (the daemon then starts with fresh keys)
+                std::mem::forget(e);
+                kani::cover!(n < HDR, "truncated header rejected");
+                kani::cover!(n >= HDR && primary > len, "primary beyond the key count rejected");
+                kani::cover!(n == FILE_MAX && len == 3 && primary < 3, "file shorter than its declared keys rejected");
+                kani::cover!(n == HDR + KEY + 5 && len == 2 && primary < 2, "truncated inside the second key rejected");
+            }
+        }
+    }
+}
+
+/// Expected to FAIL (known finding `primary == len`): a file whose primary equals its number of
+/// keys (e.g. the 20-byte file "no keys") is accepted, and issuing a cookie then indexes out of
+/// bounds. `with_key` selects the 0-key / 1-key instance.
+fn kf_primary_eq_len_body(nkeys: u32, mut file: [u8; HDR + KEY]) {
+    file[12..16].copy_from_slice(&nkeys.to_be_bytes()); // primary
+    file[16..20].copy_from_slice(&nkeys.to_be_bytes()); // number of keys
+    let n = HDR + KEY * nkeys as usize;
+    let mut rd: &[u8] = &file[..n];
+    match KeySetProvider::load(&mut rd, 1) {
+        Ok((p, _time)) => {
+            let ks = p.get();
+            assert!((kh::keyset_primary(&ks) as usize) < kh::keyset_len(&ks), "primary indexes an existing key");
+            // what the NTS-KE server and the NTP server do with the loaded set:
+            let c = cookie256([1; 32], [2; 32]);
+            let enc = kh::keyset_encode_cookie(&ks, &c);
+            assert!(enc.len() > 22, "cookie issued");
+            std::mem::forget(c);
+            std::mem::forget(ks);
+            std::mem::forget(p);
+        }
+        Err(e) => std::mem::forget(e),
+    }
+}
+
+crate::ks_harness_spec! {
+    #[kani::unwind(40)]
+    fn c27_load_kf_primary_eq_len() {
+        symbolic_aead(MODE_EXPECT_OK);
+        let file: [u8; HDR + KEY] = kani::any();
+        let with_key: bool = kani::any();
+        let secs = be64(&file, 0);
+        kani::assume(secs <= i64::MAX as u64);
+        if with_key {
+            kf_primary_eq_len_body(1, file);
+        } else {
+            kf_primary_eq_len_body(0, file);
+        }
+    }
+}
+
+/// Expected to FAIL (known finding `time >= 2^63 s`): `UNIX_EPOCH + Duration::from_secs(secs)`
+/// panics inside `load` instead of rejecting the file.
+crate::ks_harness_spec! {
+    #[kani::unwind(4)]
+    fn c27_load_kf_time_overflow() {
+        let file: [u8; HDR] = kani::any();
+        let secs = be64(&file, 0);
+        kani::assume(secs > i64::MAX as u64);
+        let mut rd: &[u8] = &file[..];
+        let r = KeySetProvider::load(&mut rd, 1);
+        // reaching this point at all is the property ("rejects it or loads it; never crashes")
+        kani::cover!(r.is_err(), "rejected");
+        std::mem::forget(r);
+    }
+}
+
+/// Every key set `c27_load` can return (1 or 2 keys, `primary < len`, any id offset) can issue a
+/// cookie and decode it again.
+fn usable_body(nkeys: usize) {
+    symbolic_aead(MODE_EXPECT_OK);
+    let keys = symbolic_keys(nkeys);
+    let off: u32 = kani::any();
+    let primary: u32 = kani::any();
+    let s2c: [u8; 32] = kani::any();
+    let c2s: [u8; 32] = kani::any();
+    kani::assume((primary as usize) < nkeys);
+    let v = if nkeys == 1 { vec![key512(keys[0])] } else { vec![key512(keys[0]), key512(keys[1])] };
+    let ks = kh::keyset_from_parts(v, off, primary);
+    let c = cookie256(s2c, c2s);
+    let enc = kh::keyset_encode_cookie(&ks, &c);
+    match kh::keyset_decode_cookie(&ks, &enc) {
+        Ok(d) => {
+            let same = same_cookie(&d, 15, &s2c, &c2s);
+            std::mem::forget(d);
+            assert!(same, "a loaded key set issues cookies it can decode");
+            kani::cover!(primary == 0, "oldest key is primary");
+            kani::cover!(primary as usize == nkeys - 1, "newest key is primary");
+        }
+        Err(_) => assert!(false, "a loaded key set must decode its own cookies"),
+    }
+    std::mem::forget(c);
+    std::mem::forget(ks);
+}
+
+crate::ks_harness_spec! {
+    #[kani::unwind(40)]
+    fn c27_usable_1() { usable_body(1) }
+}
+crate::ks_harness_spec! {
+    #[kani::unwind(40)]
+    fn c27_usable_2() { usable_body(2) }
+}
+
+/// A provider as the daemon holds it: `nkeys` keys, newest is primary.
+fn stored_provider(nkeys: usize, keys: &[[u8; 64]; KEYS_N], off: u32, history: usize) -> KeySetProvider {
+    let v = if nkeys == 1 { vec![key512(keys[0])] } else { vec![key512(keys[0]), key512(keys[1])] };
+    kh::provider_from_parts(kh::keyset_from_parts(v, off, nkeys as u32 - 1), history)
+}
+
+/// Crash while storing: the file on disk is some prefix of what `store` writes (the file is opened
+/// with truncate, then written front to back). Loading any prefix either fails (=> fresh keys) or
+/// the prefix is the whole file and the loaded set equals the stored one.
+fn crash_body(nkeys: usize) {
+    let keys = symbolic_keys(nkeys);
+    let off: u32 = kani::any();
+    let history: usize = kani::any();
+    let cut: usize = kani::any();
+    let now = symbolic_wall_clock();
+    let full = HDR + KEY * nkeys;
+    kani::assume(cut <= full);
+    let p = stored_provider(nkeys, &keys, off, history);
+    let mut buf = [0u8; FILE_MAX];
+    {
+        let mut w: &mut [u8] = &mut buf[..];
+        let r = p.store(&mut w);
+        assert!(r.is_ok(), "storing into a large enough file succeeds");
+        assert!(w.len() == FILE_MAX - full, "store writes header + 64 bytes per key");
+        std::mem::forget(r);
+    }
+    let mut rd: &[u8] = &buf[..cut];
+    match KeySetProvider::load(&mut rd, history) {
+        Ok((q, time)) => {
+            assert!(cut == full, "no strict prefix of a stored file is accepted");
+            let a = p.get();
+            let b = q.get();
+            assert!(kh::keyset_len(&b) == nkeys, "same number of keys");
+            assert!(kh::keyset_id_offset(&b) == off, "same id offset");
+            assert!(kh::keyset_primary(&b) == kh::keyset_primary(&a), "same primary");
+            let mut k = 0;
+            while k < nkeys {
+                assert!(eq64(kh::keyset_key_bytes(&b, k), &keys[k]), "same key bytes");
+                k += 1;
+            }
+            assert!(time == SystemTime::UNIX_EPOCH + Duration::from_secs(now), "creation time (seconds) restored");
+            kani::cover!(true, "complete file restored");
+            std::mem::forget(a);
+            std::mem::forget(b);
+            std::mem::forget(q);
+        }
+        Err(e) => {
+            std::mem::forget(e);
+            assert!(cut < full, "the complete file is accepted");
+            kani::cover!(cut == 0, "crash right after the truncating open");
+            kani::cover!(cut == HDR, "crash after the header");
+            kani::cover!(cut == full - 1, "crash one byte before the end");
+        }
+    }
+    std::mem::forget(p);
+}
+
+crate::ks_harness_spec! {
+    #[kani::unwind(4)]
+    fn c27_crash_1() { crash_body(1) }
+}
+crate::ks_harness_spec! {
+    #[kani::unwind(4)]
+    fn c27_crash_2() { crash_body(2) }
+}
+
+/// Restart: cookies issued before `store` decode after `load` of the stored file.
+crate::ks_harness_spec! {
+    #[kani::unwind(40)]
+    fn c27_restore() {
+        symbolic_aead(MODE_EXPECT_OK);
+        let keys = symbolic_keys(2);
+        let off: u32 = kani::any();
+        let history: usize = kani::any();
+        let s2c: [u8; 32] = kani::any();
+        let c2s: [u8; 32] = kani::any();
+        let _now = symbolic_wall_clock();
+        let p = stored_provider(2, &keys, off, history);
+        let c = cookie256(s2c, c2s);
+        let before = p.get();
+        let enc = kh::keyset_encode_cookie(&before, &c);
+        let mut buf = [0u8; FILE_MAX];
+        {
+            let mut w: &mut [u8] = &mut buf[..];
+            let r = p.store(&mut w);
+            assert!(r.is_ok(), "store succeeds");
+            std::mem::forget(r);
+        }
+        let mut rd: &[u8] = &buf[..];
+        match KeySetProvider::load(&mut rd, history) {
+            Ok((q, _time)) => {
+                let after = q.get();
+                match kh::keyset_decode_cookie(&after, &enc) {
+                    Ok(d) => {
+                        let same = same_cookie(&d, 15, &s2c, &c2s);
+                        std::mem::forget(d);
+                        assert!(same, "a cookie issued before the restart decodes to the same contents after it");
+                        kani::cover!(true, "old cookie accepted after restart");
+                    }
+                    Err(_) => assert!(false, "a cookie issued before the restart must still decode"),
+                }
+                std::mem::forget(after);
+                std::mem::forget(q);
+            }
+            Err(e) => {
+                std::mem::forget(e);
+                assert!(false, "a stored file must load");
+            }
+        }
+        std::mem::forget(c);
+        std::mem::forget(before);
+        std::mem::forget(p);
+    }
+}
